@@ -8,8 +8,16 @@ import sys
 from vlib import core, engine_corr
 
 PROPERTY = "C01"
-LEAN_MODS = []
-THEOREMS = []
+LEAN_MODS = ["AtomicaProofs.Properties.C01"]
+THEOREMS = [
+    "Atomica.C01.timed_transfer_total",   # a timed link delivers exactly its total for any row-count mismatch
+    "Atomica.C01.balance_normal",
+    "Atomica.C01.balance_sink",
+    "Atomica.C01.balance_timed",
+    "Atomica.C01.step_balance",           # per compartment: next = current - recorded out + recorded in
+    "Atomica.C01.junction_unchanged",
+    "Atomica.C01.update_total",           # grand total changes only by source outflow
+]
 TRUSTED = ["floating-point cancellation in x - out + in (the theorem is exact; the code is compared to the exact step to 1e-11 relative)", "overflow to inf not modelled"]
 RULE = "generated models (vlib.genfw.random_spec; regimes calibrated/extreme/boundary) run by the real Model; every step compared with one exact model step; non-trivial = model has a junction, timed compartment, transfer, source, active rescale, zero stock or negative parameter"
 EXPECTED_BRANCHES = ["has.timed", "has.junction", "has.resjunction", "has.transfer", "has.source", "rescale.active", "has.timedlink", "flush.nonempty_junction"]
